@@ -245,14 +245,19 @@ OnHStart(m, ev) ==
            THEN Fail(m1, "C12:publish-beyond-receive-maximum-delivered")
          ELSE m1
 
+\* C07: a handler failed with an error for which no acknowledgement exists: the Stop notification that
+\* follows has to carry the application's error (unless the connection was already ending)
+ExpectErrStop(m) == IF m.expectStop = "none" /\ ~m.term /\ m.est THEN [m EXCEPT !.expectStop = "stop_error"] ELSE m
+
 OnHEnd(m, ev) ==
   LET i == IdxOf(m.pubs, LAMBDA p : p.h = ev.s /\ p.st = "started")
       j == IdxOf(m.reqs, LAMBDA r : r.h = ev.s /\ r.h # 0 /\ ~r.produced) IN
   IF i = 0 THEN
      (IF j = 0 THEN m
       ELSE LET r == m.reqs[j]
-               m1 == [m EXCEPT !.reqs[j].produced = TRUE,
+               m0 == [m EXCEPT !.reqs[j].produced = TRUE,
                                !.reqs[j].st = IF ev.k = "ok" THEN @ ELSE "failed"]
+               m1 == IF ev.k = "err" THEN ExpectErrStop(m0) ELSE m0
                pi == IdxOf(m.pubs, LAMBDA p : p.id = r.id /\ p.q = 2 /\ p.rel /\ ~p.relProduced /\ ~p.refused)
            IN IF r.kind \in {"pubrel", "pubrel_early"} /\ pi > 0
                 THEN [m1 EXCEPT !.pubs[pi].relProduced = TRUE] ELSE m1)
@@ -263,8 +268,10 @@ OnHEnd(m, ev) ==
            \*  with a reason code itself - a code below 0x80 (0x10, no matching subscribers) is a success
            \*  and the exchange goes on as for 0; anything else the harness answers like "ok")
            code == IF ev.k \in {"nack", "nack_ok"} THEN ev.r ELSE 0
-       IN [m EXCEPT !.pubs[i].st = st, !.pubs[i].code = code, !.pubs[i].failed = ev.k \in {"err", "nack"},
-                    !.running = IF @ > 0 THEN @ - 1 ELSE 0]
+           m2 == [m EXCEPT !.pubs[i].st = st, !.pubs[i].code = code, !.pubs[i].failed = ev.k \in {"err", "nack"},
+                           !.running = IF @ > 0 THEN @ - 1 ELSE 0]
+       IN IF ev.k = "err" \/ (ev.k = "nack" /\ m.role = "server" /\ (m.ver = 3 \/ m.pubs[i].q = 0))
+            THEN ExpectErrStop(m2) ELSE m2
 
 OnHDrop(m, ev) ==
   LET i == IdxOf(m.pubs, LAMBDA p : p.h = ev.s /\ p.st = "started") IN
